@@ -36,6 +36,13 @@ def untranslatable_obligations(log):
                             "detail": "alias variant cannot be given a meaning: " + r["untranslatable"]})
     return obs
 
+def module_theorems(module, namespace):
+    """every `theorem` declared in a hand-written property module (namespace-qualified)"""
+    path = os.path.join(VERIF, "lean", module.replace(".", "/") + ".lean")
+    if not os.path.exists(path): return []
+    names = re.findall(r"^\s*(?:@\[[^\]]*\]\s*)*theorem\s+([A-Za-z0-9_'.]+)", open(path, encoding="utf-8").read(), re.M)
+    return [("%s.%s" % (namespace, n), module) for n in names]
+
 Q = ["asm"]
 def cfgs(tier, quick, thorough):
     return thorough if tier == "thorough" else quick
@@ -71,4 +78,41 @@ PROPS["C18"] = {
         any(re.search(r"Fq6\.multiply_o(b|ab)_alias", o["name"]) for _ in [0]) for o in undischarged),
     "rule": "pairs of operation lines (all objects distinct / output aliased to inputs) on identical operands; the two raw results must be identical; distinct = distinct op lines",
     "not_modelled": "what an optimiser may do with __restrict is outside the source-level model; sampled at -O0 and -O2",
+}
+
+ALLCFG = ["asm", "asm+nobmi2", "asm-clang", "portable64", "portable32"]
+
+PROPS["C02"] = {
+    "translators": ["consts"],
+    "lean_targets": ["JediVerif.Properties.C02"],
+    "theorems": lambda: module_theorems("JediVerif.Properties.C02", "Jedi.C02"),
+    "streams": lambda seed, tier: [
+        {"cfg": c, "name": g, "lines": no_alias(gen(g, seed, n if tier == "quick" else 6 * n, tier))}
+        for c in cfgs(tier, ["asm", "portable64", "portable32"], ALLCFG + ["asan", "asan-portable"])
+        for (g, n) in (("fp", 10), ("bigint", 4))],
+    "hypotheses": ["H-qprime / r prime (only for inverse, Legendre, square roots: those are compared with the Spec by the correspondence, not yet theorems)"],
+    "not_modelled": "exponentiate/fp_inverse/legendre/square_root/random/hash_reduce/byte I/O: hand models exist only in the judge (Spec); RESIST_SIDE_CHANNELS variants out of scope",
+}
+
+PROPS["C19"] = {
+    "translators": ["consts", "layout2lean"],
+    "lean_targets": ["JediVerif.Properties.C19"],
+    "theorems": lambda: module_theorems("JediVerif.Properties.C19", "Jedi.C19"),
+    "streams": lambda seed, tier: [
+        {"cfg": c, "name": "capi", "kind": "selfcheck", "lines": gen("capi", seed, 6 if tier == "quick" else 30, tier)}
+        for c in cfgs(tier, ["asm", "portable32"], ["asm", "asm+nobmi2", "portable64", "portable32", "asan"])],
+    "rule": "each line calls one C function and the C++ operation it wraps on the same arguments inside the harness; EQ/NE verdict; distinct = distinct op lines",
+    "not_modelled": "Go bindings (no Go toolchain): read, not executed; cross-target layouts (thumbv6m/aarch64) not extracted",
+}
+
+PROPS["C20"] = {
+    "translators": ["syms2lean"],
+    "lean_targets": ["JediVerif.Properties.C20"],
+    "theorems": lambda: module_theorems("JediVerif.Properties.C20", "Jedi.C20"),
+    "streams": lambda seed, tier: [
+        {"cfg": c, "name": "threads:" + g, "kind": "threads", "lines": gen(g, seed, n, tier)}
+        for c in cfgs(tier, ["asm"], ["asm", "portable64", "tsan"])
+        for (g, n) in (("fp", 3), ("tower", 3), ("curve", 3), ("scalar", 2), ("pairing", 2))],
+    "rule": "the same op lines are executed by 4 threads concurrently, each in a different order and twice; every thread must produce, line for line, the output of the sequential run (judged against the Spec)",
+    "not_modelled": "footprint premises of interleaving_eq_sequential come from object-code tables, not from a semantics of machine code; data races are only sampled (TSan in the thorough tier)",
 }
